@@ -183,6 +183,11 @@ def _crash_result(prop, st, stderr_text, rc, work, pid_hint, seed):
                    "stderr_tail": stderr_text[-4000:]}, open(dst, "w"))
         replay = dst
     sig = None
+    if any(m in stderr_text for m in ("StorageFull", "No space left on device", "Os { code: 28", "os error 28")):
+        out["status"] = "inconclusive"
+        out["inconclusive"] = 1
+        out["inconclusive_notes"] = ["environment: scratch space full (stage %s died: %s)" % (st["stage"], stderr_text.strip().splitlines()[-1][:200] if stderr_text.strip() else "")]
+        return out
     if "unsafe precondition(s) violated" in stderr_text:
         m = re.search(r"unsafe precondition\(s\) violated: ([^\n]{0,80})", stderr_text)
         sig = "ub-precondition:" + (m.group(1).split(" requires")[0].strip().replace(" ", "_") if m else "unknown")
@@ -218,6 +223,8 @@ def run_ktmon_stage(prop, st, tier, seed, work, flavour, extra_env=None, extra_a
     # files and scratch directory of this stage run are named after the *plan* flavour (VM and V run the R binary, and
     # stages of one check may run concurrently)
     flavour = tag or st.get("flavour", flavour)
+    if st.get("env"):
+        flavour += "".join("-%s" % v for _, v in sorted(st["env"].items()))
     budget = st.get("budget", {}).get(tier, 600 if tier == "quick" else 3600) if isinstance(st.get("budget"), dict) else st.get("budget", 600 if tier == "quick" else 3600)
     outp = os.path.join(work, "result-%s-%s.json" % (st["stage"], flavour))
     errp = os.path.join(work, "stderr-%s-%s.txt" % (st["stage"], flavour))
@@ -244,6 +251,14 @@ def run_ktmon_stage(prop, st, tier, seed, work, flavour, extra_env=None, extra_a
     env["RUST_BACKTRACE"] = "0"
     if extra_env:
         env.update(extra_env)
+    # the system temporary directory is deliberately on another filesystem than the scratch space (/dev/shm): staging an
+    # output "in the temp dir" and renaming it into place only works on one filesystem
+    tmpd = os.path.join(CACHE, "tmp")
+    os.makedirs(tmpd, exist_ok=True)
+    env["TMPDIR"] = tmpd
+    # per-stage environment from the plan (e.g. RAYON_NUM_THREADS for the size of the global pool)
+    for k, v in (st.get("env") or {}).items():
+        env[k] = str(v)
     watchdog = budget * 3 + 120
     t0 = time.time()
     with open(errp, "wb") as ef:
@@ -271,6 +286,8 @@ def run_ktmon_stage(prop, st, tier, seed, work, flavour, extra_env=None, extra_a
         return {"status": "error", "error": "unparseable stage result: %s" % e}
     shutil.rmtree(swork, ignore_errors=True)
     res["status"] = "ok" if not res.get("truncated") else "truncated"
+    if st.get("env"):
+        res.setdefault("extra", {})["stage_environment"] = dict(st["env"])
     res["_stderr"] = stderr_text
     return res
 
